@@ -8,6 +8,7 @@ import (
 	"math/rand"
 	"os"
 	"runtime"
+	"sort"
 	"strconv"
 	"strings"
 	"sync"
@@ -94,4 +95,38 @@ func verifPortName(proc WorkflowProcess, name string) string {
 		return name
 	}
 	return proc.Name() + "." + name
+}
+
+// verifTaskKeys identifies a task in the event log: temp dir, process, in-paths, parameters and out-paths (sorted by port)
+func verifTaskKeys(t *Task) []string {
+	keys := []string{t.TempDir()}
+	if t.Process != nil {
+		keys = append(keys, "p:"+t.Process.Name())
+	} else {
+		keys = append(keys, "p:"+t.Name)
+	}
+	part := []string{}
+	for n, ip := range t.InIPs {
+		part = append(part, "i:"+n+"="+ip.Path())
+	}
+	sort.Strings(part)
+	keys = append(keys, part...)
+	part = []string{}
+	for k, v := range t.Params {
+		part = append(part, "q:"+k+"="+v)
+	}
+	sort.Strings(part)
+	keys = append(keys, part...)
+	part = []string{}
+	for n, ip := range t.OutIPs {
+		if ip.doStream {
+			part = append(part, "os:"+n+"="+ip.Path())
+		} else {
+			part = append(part, "o:"+n+"="+ip.Path())
+		}
+	}
+	sort.Strings(part)
+	keys = append(keys, part...)
+	keys = append(keys, "c:"+strconv.Itoa(t.cores))
+	return keys
 }
